@@ -93,6 +93,18 @@ func checkID(id, kind string, sigil byte) (err error) {
 	return
 }
 
+// checkRoomID checks that the room ID of an event is a well-formed room ID.
+// The RoomID() accessor of the PDU relies on it.
+func checkRoomIDIsValid(roomID string) error {
+	if err := checkID(roomID, "room", '!'); err != nil {
+		return err
+	}
+	if _, err := spec.NewRoomID(roomID); err != nil {
+		return fmt.Errorf("gomatrixserverlib: invalid room ID %q: %w", roomID, err)
+	}
+	return nil
+}
+
 // SplitID splits a matrix ID into a local part and a server name.
 func SplitID(sigil byte, id string) (local string, domain spec.ServerName, err error) {
 	// IDs have the format: SIGIL LOCALPART ":" DOMAIN
